@@ -191,7 +191,7 @@ def cases(tier, rng):
         yield case_line('z.fromutc', off, naive(TMIN))
         yield case_line('z.withtz', zval(TMIN, 0, 0), off)
     # ---- setters: all fields x boundary arguments
-    step = 3 if quick else 1
+    step = 3          # every third value of the lattice (the thorough lattice has ~20x more values)
     for (t, f, off) in end_z[::step] + mid_z[::step]:
         z = zval(t, f, off)
         zl = naive(t + off, f) if TMIN <= t + off <= TMAX else z
@@ -201,7 +201,7 @@ def cases(tier, rng):
                 fa = fa[::2] + fa[-1:]
             for x in fa:
                 yield case_line('z.with', field, z, x)
-    for (t, f, off) in end_z[::2 if quick else 1] + mid_z[::4]:
+    for (t, f, off) in end_z[::2] + mid_z[::4]:
         z = zval(t, f, off)
         for tm in (TIMES[::2] if quick else TIMES):
             yield case_line('z.withtime', z, tm)
@@ -238,7 +238,7 @@ def cases(tier, rng):
                                (12, 30, 15), (U32_MAX, 0, 0), (1, 59, 59), (21, 59, 59)]:
                 yield case_line('z.ymdhms', off, y, m, d, h, mi, s)
     # ---- random
-    n = 30000 if quick else 3000000
+    n = 30000 if quick else 2000000
     for _ in range(n):
         r = rng.random()
         z = rand_z(rng)
